@@ -2,6 +2,7 @@ package props
 
 import (
 	"fmt"
+	"math"
 	"runtime"
 	"time"
 
@@ -286,6 +287,26 @@ func c10History(c *core.Ctx, r *core.Rand, t *dyn.TypeOps, al signal.Allocator, 
 					c.Violate(inst+"|shared-storage", caseID, fmt.Sprintf("Get returned storage [%#x,%#x) overlapping outstanding buffer %d [%#x,%#x)", o.lo, o.hi, oi, other.lo, other.hi), detail())
 					return
 				}
+			}
+			if g.RawCap() > 0 && r.Chance(1, 6) {
+				// the holder's first use writes nothing but the most extreme value
+				// of the element type (lowest integer code, highest unsigned code,
+				// NaN, -Inf) at a few places of the capacity
+				var ext dyn.Val
+				switch t.Kind {
+				case dyn.KInt:
+					ext = dyn.IntVal(t.MinI())
+				case dyn.KUint:
+					ext = dyn.UintVal(t.MaxU())
+				default:
+					ext = dyn.FloatVal([]float64{math.NaN(), math.Inf(-1)}[r.Intn(2)])
+				}
+				full := g.Slice(0, al.Capacity)
+				for k := r.Range(1, 3); k > 0; k-- {
+					full.SetSample(r.Intn(full.Len()), ext)
+				}
+				log(fmt.Sprintf("write-only-%v", ext))
+				c.Obs("checkouts_whose_first_use_writes_only_the_extreme_value", 1)
 			}
 			c10Snap(o)
 			out = append(out, o)
